@@ -156,6 +156,8 @@ func RenderAction(a Action) string {
 			return "ctl:ruleEngine=" + a.Op
 		case "requestBodyAccess", "responseBodyAccess":
 			return "ctl:" + a.S + "=" + a.Op
+		case "requestBodyLimit", "responseBodyLimit":
+			return fmt.Sprintf("ctl:%s=%d", a.S, a.N)
 		default:
 			return "ctl:" + a.S + "=" + a.Op
 		}
